@@ -441,3 +441,26 @@ func (h *verifSeqHandler) HandleGetDirSize(ctx *Context[verifState], path string
 	h.order = append(h.order, "dirsize:"+path)
 	return 0x01020304, nil
 }
+
+// Paths of every legal length: the announced length is a 16-bit number, so requests with paths of up
+// to 65535 bytes are framed like any other - lengths around the usual buffer sizes (256, 4 KiB,
+// 32 KiB) and the maximum, through the real connection loop (whatever reader it puts on the socket).
+func VerifC03_LongPath() {
+	op := [8]uint16{0x1224, 0x1228, 0x122a, 0x122c, 0x122d, 0x122e, 0x1230, 0x1231}[verifrt.Choice("opcode", 8)]
+	L := [7]int{255, 256, 4096, 4097, 32768, 32769, 65535}[verifrt.Choice("pathlen", 7)]
+	b := make([]byte, L)
+	for i := range b {
+		b[i] = 'a' + byte(i%7)
+	}
+	b[0] = '/'
+	path := string(b)
+	req := verifRequest(op, path, nil)
+	conn := &verifstub.Conn{In: req} // segmentation is the subject of Request/Sequence; here every read is served in full
+	h := &verifHandler{}
+	s := verifNewServer(h)
+	s.serveConn(conn)
+	want, _ := verifExpected(op, h, false)
+	verifrt.Assert(conn.Pos == len(req), "longpath.consumed-exactly")
+	verifSameBytes(conn.Out, want, "longpath.response")
+	verifrt.Assert(len(h.calls) == 1 && h.path == path, "longpath.path-argument")
+}
